@@ -59,9 +59,10 @@ Print Assumptions cache_transparent_async_refuted.
     waiting, working or the hands of the parked read-ahead thread, so neither
     channel (capacity rd) can overflow and no decompressor is used by two
     parties.  Partial: this is the first conjunct of the invariant AInv of
-    DESIGN.md; refinement of the flat model for rd > 1 without a cache
-    (reader_async_refines_flat) is not proved - it is tied by correspondence
-    under natural and gated schedules - and with a cache it is false (above). *)
+    DESIGN.md and it is all that survives with a cache; without a cache the
+    full refinement of the flat model under every schedule is
+    reader_async_refines_flat_partial in Props/C02.v, with a cache the
+    refinement is false (above). *)
 Theorem reader_async_safe_partial :
   forall (F : file) (ch : list nat) (rd : nat) (sched : list nat) (ops : list rop) (a' : astate),
     (1 <= rd)%nat -> a_exec F ch (fst (a_init F rd sched)) ops = Ok a' ->
